@@ -484,6 +484,19 @@ func c18IDItem(i int, stats map[string]int) []Violation {
 	if a != b && ia == ib {
 		return []Violation{{Rule: "C18/distinct-functions-same-id", Detail: fmt.Sprintf("%s and %s both get ID %d", a, b, ia)}}
 	}
+	if a != b && !strings.HasPrefix(a, "Dd") {
+		// the same function provided with another function's pc as its
+		// reported location (LocationForPC) is still the same function
+		if il, okl := id(da, u.LocationOf(b)); okl {
+			stats["id_with_foreign_location_compared"]++
+			if il != ia {
+				return []Violation{{Rule: "C18/same-function-different-id", Detail: fmt.Sprintf("%s gets ID %d and, provided with LocationForPC(pc of %s), %d", a, ia, b, il)}}
+			}
+			if il == ib {
+				return []Violation{{Rule: "C18/distinct-functions-same-id", Detail: fmt.Sprintf("%s provided with LocationForPC(pc of %s) gets %s's ID %d", a, b, b, ib)}}
+			}
+		}
+	}
 	if a == b {
 		// the same function registered again (other scope placement / Export) keeps its ID
 		ic, okc := id(da, u.Export)
